@@ -127,7 +127,7 @@ func checkC17(r *core.Run) {
 				}
 				mt := t.Args[idx].String()
 				for _, fld := range []string{"Did", "Timestamp"} {
-					key := core.Key("T-payload", r.P.Name(f), name, "depends-on-proof."+fld)
+					key := core.Key("T-payload", r.KeyName(f), name, "depends-on-proof."+fld)
 					if strings.Contains(mt, "#3."+fld) {
 						r.Discharge("T-payload", key, r.P.Pos(c.Pos()), "signed payload depends on proof."+fld)
 					} else {
@@ -196,7 +196,7 @@ func scanPatterns(r *core.Run, id string, f *ssa.Function, n *int) {
 			}
 			*n++
 			cnt++
-			key := core.Key(id, r.P.Name(f), fmt.Sprintf("%s#%d", name, cnt))
+			key := core.Key(id, r.KeyName(f), fmt.Sprintf("%s#%d", name, cnt))
 			k, isC := c.Common().Args[0].(*ssa.Const)
 			if !isC || k.Value == nil {
 				r.Violate(id, key, r.P.Pos(c.Pos()), "validation pattern is not a constant")
